@@ -19,7 +19,7 @@ RULE = ("A case is a ring description (hosts with dc/rack/tokens, partitioner), 
         "(<=9 in all) x <=3 racks, 4 hosts x 1-2 tokens x <=3 racks, 4 hosts x 1-3 tokens (<=7 in all) x <=2 racks, 5 hosts x 1-2 tokens "
         "(<=7 in all) x <=2 racks with murmur3 tokens, plus <=3 (thorough <=4) hosts x 1-2 tokens for the Random and ByteOrdered partitioners; each ring carries "
         "SimpleStrategy RF 1..hosts+1 and NetworkTopologyStrategy with every per-DC RF in 0..4 (not all zero), an absent DC and one transient "
-        "setting; ring tokens are the tokens of fixed probe keys so that keys fall before the first, between, exactly on and after the last "
+        "setting (judged against Cassandra's FULL replicas); ring tokens are the tokens of fixed probe keys so that keys fall before the first, between, exactly on and after the last "
         "ring token.  Part random-rings draws rings of <=6 hosts x <=3 racks x <=2 DCs (thorough <=3 DCs) x 1-4 tokens per host with boundary "
         "tokens (Long.MIN_VALUE, Long.MAX_VALUE, 0, 2**127, empty/ff.. byte tokens) and tokens derived from the drawn keys (+-1).  For every keyspace the reference "
         "replica set is computed for every ring position; the driver is asked through TokenMap.get_replicas for every ring token and its "
@@ -419,6 +419,6 @@ def s_random(max_dcs):
 def parts(tier):
     return [
         EnumPart("small-rings", small_chunks(tier), small_cases, interpret),
-        hyp_part("random-rings", s_random(2 if tier == "quick" else 3), interpret, tier, quick=250, thorough=6000,
+        hyp_part("random-rings", s_random(2 if tier == "quick" else 3), interpret, tier, quick=250, thorough=3000,
                  quick_shards=2, thorough_shards=16),
     ]
